@@ -67,6 +67,9 @@ def main():
             if saved is not None:
                 open(evf, "w").write(saved)
     finally:
+        # the translators regenerate lean/LibfiberVerif/Gen/*.lean from whatever tree a check runs
+        # against: put back what /repo itself yields (the next check would do so anyway)
+        subprocess.run(["git", "-C", VERIF, "checkout", "--", "lean/LibfiberVerif/Gen"], stdout=subprocess.DEVNULL, stderr=subprocess.DEVNULL)
         if in_repo:
             subprocess.run(["git", "-C", repo, "checkout", "--", "."], check=True)
         else:
